@@ -17,8 +17,10 @@ var dimsCommon = []int64{2, 3, 4}
 var dimsRare = []int64{1, 5, 6, 7, 8}
 
 type gctx struct {
-	r *vh.Rng
-	w *world
+	r     *vh.Rng
+	w     *world
+	clean bool // warm-up: only admissible amounts are drawn
+	bare  int  // per-history chance (in 8) that a queue carries no resources at all
 }
 
 func (g *gctx) state() map[int64]qspec {
@@ -96,6 +98,10 @@ func grid(d int64) int64 {
 func (g *gctx) genSpecRes(st map[int64]qspec, self, p int64, q *qspec) {
 	r := g.r
 	dims := []int64{}
+	q.cap, q.des, q.guar = rl{}, rl{}, rl{}
+	if r.Chance(g.bare, 8) {
+		return
+	}
 	for _, d := range dimsCommon {
 		if r.Chance(3, 4) {
 			dims = append(dims, d)
@@ -135,7 +141,11 @@ func (g *gctx) genSpecRes(st map[int64]qspec, self, p int64, q *qspec) {
 			if rem < 0 {
 				rem = 0
 			}
-			switch r.Intn(8) {
+			k := r.Intn(12)
+			if g.clean && (k == 1 || k == 4) {
+				k = 0
+			}
+			switch k {
 			case 0:
 				return rem // exactly what is left
 			case 1:
@@ -173,7 +183,11 @@ func (g *gctx) genSpecRes(st map[int64]qspec, self, p int64, q *qspec) {
 		if hasC {
 			cv := dv + int64(r.Intn(5))*u
 			if up, ok := nearestCap(st, p, d); ok {
-				switch r.Intn(6) {
+				k := r.Intn(8)
+				if g.clean && k == 1 {
+					k = 0
+				}
+				switch k {
 				case 0:
 					cv = up
 				case 1:
@@ -186,10 +200,10 @@ func (g *gctx) genSpecRes(st map[int64]qspec, self, p int64, q *qspec) {
 					}
 				}
 			}
-			if r.Chance(1, 15) {
+			if !g.clean && r.Chance(1, 20) {
 				cv = dv - u // below deserved
 			}
-			if r.Chance(1, 40) {
+			if !g.clean && r.Chance(1, 60) {
 				cv = -u
 			}
 			q.cap = append(q.cap, [2]int64{d, cv})
@@ -230,6 +244,9 @@ func (g *gctx) nextRequest(last *int64) request {
 		}
 	}
 	roll := r.Intn(100)
+	if g.clean {
+		roll = r.Intn(40) // warm-up: mostly CREATE
+	}
 	switch {
 	case roll < 36 && len(fresh) > 0 || len(nr) == 0 && len(fresh) > 0: // CREATE
 		q := qspec{name: vh.Pick(r, fresh)}
@@ -454,10 +471,13 @@ func gen(rng *vh.Rng, n int, emit func(id string, sel int, in []int64, kind stri
 			}
 		}
 		g.w = newWorld(cfg, q0)
+		g.bare = vh.Pick(r, []int{0, 1, 3, 6, 8})
 		h := history{cfg: cfg, q0: q0}
 		steps := r.Range(5, 40)
+		warm := r.Intn(10)
 		var last int64
 		for k := 0; k < steps; k++ {
+			g.clean = k < warm
 			req := g.nextRequest(&last)
 			g.w.step(req)
 			h.reqs = append(h.reqs, req)
